@@ -675,12 +675,37 @@ def run_c07(rep, rng, tier):
                 job["primer"] = "\n".join(pr) + "\n"
             jobs.append(job)
             meta.append((k, style))
-    # every .fcp file of the repository as additional inputs (thorough)
+    # the same kind of description spread over module files: two independent clusters of declarations, each with a prefix moved
+    # into a module tree of its own, the module files often sharing a base name (c0/types.fcp, c1/types.fcp); the tree must
+    # still be exactly the declarations of the description, each of them once
+    for _ in range(n // 5):
+        used = set()
+        clusters = [gen_desc(rng, max_decls=4, used=used) for _ in range(2)]
+        dd = Desc()
+        root_decls, mods = [], {}
+        for ci, c in enumerate(clusters):
+            dd.decls += c.decls
+            if len(c.decls) >= 2:
+                rd, mf = split_desc(rng, c, first_dirs=[f"c{ci}"])
+                root_decls += rd
+                mods.update(mf)
+            else:
+                root_decls += c.decls
+        if not mods:
+            continue
+        rd = Desc()
+        rd.decls = root_decls
+        files = {"main.fcp": render(rng, desc_toks(rng, rd), "canon")}
+        for rel, sub in mods.items():
+            files[rel] = render(rng, desc_toks(rng, sub), rng.choice(["canon", "wild"]))
+        descs.append(dd)
+        jobs.append({"files": files, "root": "main.fcp", "from_string": False})
+        meta.append((len(descs) - 1, "module files"))
     ires = run_cases("harness.frontend", "w_parse", with_workroot(jobs, random.Random(len(jobs)), WORKROOT), timeout_s=60)
     mres = run_driver_parallel(model_cases(jobs))
     for (k, style), job, r, m in zip(meta, jobs, ires, mres):
         d = descs[k]
-        text = job["files"]["main.fcp"]
+        text = job["files"]["main.fcp"] if len(job["files"]) == 1 else json.dumps(job["files"], sort_keys=True)
         rep.count(text)
         rep.hist("formatting", style)
         rep.sample({"text": text, "style": style}, limit=3)
